@@ -133,6 +133,14 @@ func collectEdits(root any) []editSite {
 						c = 'r'
 					}
 					add(path+"[0]:element-assigned", func() { e.SetString(string(c) + s[1:]) })
+					// the same name in another letter case is another list of names (the wire carries octets)
+					for i := 0; i < len(s); i++ {
+						if ch := s[i]; ch >= 'a' && ch <= 'z' || ch >= 'A' && ch <= 'Z' {
+							i := i
+							add(path+"[0]:letter-case-changed", func() { e.SetString(s[:i] + string(ch^0x20) + s[i+1:]) })
+							break
+						}
+					}
 				}
 			case reflect.Uint16:
 				if !skipByType[et.Name()] {
